@@ -26,6 +26,8 @@ def run(ctx):
     model = ctx.model
     from .configtime import config_at_call_time
     config_at_call_time(ctx, 'C18.R4', classes=None)
+    from .configtime import late_binding_closures as _late
+    _late(ctx, 'C18.R2', classes=None)
     # ---- R1 prefix-strip of the configuration strings, justified by the Config assertions
     unitspec.storage_pair(ctx, 'C18.R2', 'C18.R1')
     sc = __import__('psa.rules.c14', fromlist=['x']).scan_unit_function(ctx, 'Unit.convert_from_storage_to_standard_format')
